@@ -182,7 +182,7 @@ def macroSigOf (j : Json) : MacroSig :=
     params := (fldArr j "params").map (fun p => ((fldStr p "n").getD [], tyTokOf ((fldStr p "t").getD []))),
     opts := (fldArr j "opts").map (fun p => ((fldStr p "n").getD [], tyTokOf ((fldStr p "t").getD []),
               decodeData ((fld p "d").getD .null))),
-    args := fldBool j "args", kwargs := fldBool j "kwargs" }
+    args := fldBool j "args", kwargs := fldBool j "kwargs", retFirst := fldBool j "ret_first" }
 
 def helperKindOf (j : Json) : Option HelperKind :=
   match (fldStr j "kind").map String.ofList with
